@@ -683,15 +683,45 @@ func c10Sep(r *Rand) string {
 	return " "
 }
 
+// c10LongBudget > 0: the rendering under way may still place that many VERY long comments (a comment
+// is insignificant whatever its length; 4096 is the size of the bufio buffers the lexer reads through)
+var c10LongBudget int
+
+// bytes of long comments the rendering under way may still place: a file of a case goes to Coq as ONE string
+// literal, and literals beyond ~30000 characters overflow coqc's stack
+var c10LongBytesLeft int
+
+var c10LongLens = []int{4095, 4096, 4097, 8192, 4095, 4096, 4097, 4094, 4098, 5000, 16000}
+
+// c10LongComment: '#' followed by exactly n bytes of commented-out configuration text
+func c10LongComment(r *Rand) string {
+	n := c10LongLens[r.Intn(len(c10LongLens))]
+	if n > c10LongBytesLeft {
+		n = 4096
+	}
+	c10LongBytesLeft -= n
+	unit := r.Pick([]string{"gzip off ", "commented { out } ", "x", "\"quoted text\" tail ", "redir /old /new 301 # ", "a.example.com, b.example.com, "})
+	return "#" + strings.Repeat(unit, n/len(unit)+1)[:n]
+}
+
 func c10EOL(r *Rand) string {
 	s := ""
-	if r.Chance(15) {
+	if c10LongBudget > 0 && c10LongBytesLeft >= 4100 && r.Chance(20) {
+		// at the end of a line that carries tokens
+		c10LongBudget--
+		s += c10Sep(r) + c10LongComment(r)
+	} else if r.Chance(15) {
 		s += c10Sep(r) + "# a comment { with } \"stuff\""
 	}
 	if r.Chance(10) {
 		s += "\r"
 	}
 	s += "\n"
+	if c10LongBudget > 0 && c10LongBytesLeft >= 4100 && r.Chance(15) {
+		// on a line of its own
+		c10LongBudget--
+		s += r.Pick([]string{"", "\t", "  "}) + c10LongComment(r) + r.Pick([]string{"\n", "\n", "\r\n"})
+	}
 	for r.Chance(15) {
 		s += c10Sep(r) + "\n"
 	}
@@ -1058,6 +1088,10 @@ func c10Mutate(s string, r *Rand) string {
 
 func c10Gen(r *Rand, tier string) []interface{} {
 	var out []interface{}
+	nLong := 32
+	if tier == "thorough" {
+		nLong = 320
+	}
 	nLex, nRaw, nAst, nMal, nCyc, nNest := 600, 450, 560, 200, 12, 80
 	if tier == "thorough" {
 		nLex, nRaw, nAst, nMal, nCyc, nNest = 10000, 9000, 12000, 4000, 120, 1500
@@ -1196,6 +1230,32 @@ func c10Gen(r *Rand, tier string) []interface{} {
 		main, files := c10RenderOpt(blocks, mode, r.Chance(60), r.U64()%1000003, 60)
 		out = append(out, &c10In{Kind: "parse", Tag: tags[mode], Main: main, Files: files, HasExp: true, Expected: c10Expected(blocks)})
 	}
+	// very long comment lines (4095 .. 16000 bytes after the '#': around and beyond the size of the buffered
+	// reader the lexer reads through), at the end of lines that carry tokens and on lines of their own, in
+	// the main file, in imported files and in snippet definitions: the output must equal the generating AST
+	var longs []interface{} // spread evenly among the other cases at the end (they are the expensive ones inside Coq)
+	for i := 0; i < nLong; i++ {
+		blocks := mkBlocks(false)
+		mode := r.Intn(4)
+		budget := r.Range(1, 3)
+		c10LongBudget, c10LongBytesLeft = budget, 17000
+		main, files := c10Render(blocks, mode, r.Chance(60), r.U64()%1000003)
+		left := c10LongBudget
+		c10LongBudget = 0
+		if left == budget || i < 2 {
+			// none placed by chance (or one of the two fixed forms): one at the end of the first line / on a line of its own in front
+			lr := NewRand(r.U64())
+			if left == budget {
+				c10LongBytesLeft = 17000
+			}
+			if j := strings.Index(main, "\n"); j >= 0 && i%2 == 0 && !strings.Contains(main[:j], "\"") && !strings.Contains(main[:j], "#") && !strings.HasSuffix(main[:j], "\\") && !strings.HasSuffix(main[:j], "\r") {
+				main = main[:j] + " " + c10LongComment(lr) + main[j:]
+			} else {
+				main = c10LongComment(lr) + "\n" + main
+			}
+		}
+		longs = append(longs, &c10In{Kind: "parse", Tag: tags[mode], Main: main, Files: files, HasExp: true, Expected: c10Expected(blocks)})
+	}
 	// malformed block structure: a rendered configuration with braces/quotes/imports damaged
 	for i := 0; i < nMal; i++ {
 		blocks := mkBlocks(false)
@@ -1276,7 +1336,16 @@ func c10Gen(r *Rand, tier string) []interface{} {
 			c10ChildInputs = append(c10ChildInputs, in)
 		}
 	}
-	return out
+	var all []interface{}
+	e := 0
+	for i, c := range out {
+		all = append(all, c)
+		for e < len(longs) && (e+1)*len(out) <= (i+1)*len(longs) {
+			all = append(all, longs[e])
+			e++
+		}
+	}
+	return append(all, longs[e:]...)
 }
 
 func init() {
@@ -1313,7 +1382,7 @@ func init() {
 	}
 	register(&Property{
 		ID: "C10", Imports: "V.Lib V.C10_Model", Judge: "judge", Shard: 120,
-		Rule: "lexer: random rune strings over a quote/escape/comment/space alphabet (incl. BOM, NBSP, U+2028, invalid UTF-8) through NewDispenser; parser: token soups with importable files, sub-directories and snippets around them through casketfile.Parse (panic capture + watchdog, child process when an import cycle is possible); random ASTs (blocks, keys, directives, quoted/escaped/multi-line/env args, sub-blocks nested to depth 3) rendered with random layout and a random partition into imported files (nested to depth 4, sub-directories, glob groups, env-expanded patterns, whole sites), snippets (incl. snippets importing snippets with directives before and after the inner import, consecutive imports, definitions in inner-first / outer-first / shuffled order and sharing physical lines, and a snippet file), arguments incl. multi-line quoted tokens holding environment references followed by further arguments — the model parses the SAME files through a glob/file oracle and must give the same keys and (file, line, text) tokens or the same error class, and the output must equal the generating AST in texts and line structure; damaged renderings (malformed block structure); generated import cycles of length 1-4 at directive, sub-block and top level; import trees over several directories (every site in its own directory, same-named files of different content, the same relative import argument written in files of different directories, ./ ../ sub-directory, env-expanded and absolute paths, sites through a glob) whose output must equal the generating AST; every parser case carries the place of every file and the kernel checks filepath.Glob's answers for literal patterns against the model's resolution rule; non-trivial = >=2 tokens / parsed blocks / every AST, file or cycle case",
+		Rule: "lexer: random rune strings over a quote/escape/comment/space alphabet (incl. BOM, NBSP, U+2028, invalid UTF-8) through NewDispenser; parser: token soups with importable files, sub-directories and snippets around them through casketfile.Parse (panic capture + watchdog, child process when an import cycle is possible); random ASTs (blocks, keys, directives, quoted/escaped/multi-line/env args, sub-blocks nested to depth 3) rendered with random layout and a random partition into imported files (nested to depth 4, sub-directories, glob groups, env-expanded patterns, whole sites), snippets (incl. snippets importing snippets with directives before and after the inner import, consecutive imports, definitions in inner-first / outer-first / shuffled order and sharing physical lines, and a snippet file), arguments incl. multi-line quoted tokens holding environment references followed by further arguments, and a family with very long comment lines (4094-16000 bytes, at line ends and on lines of their own, in main / imported files / snippet bodies) — the model parses the SAME files through a glob/file oracle and must give the same keys and (file, line, text) tokens or the same error class, and the output must equal the generating AST in texts and line structure; damaged renderings (malformed block structure); generated import cycles of length 1-4 at directive, sub-block and top level; import trees over several directories (every site in its own directory, same-named files of different content, the same relative import argument written in files of different directories, ./ ../ sub-directory, env-expanded and absolute paths, sites through a glob) whose output must equal the generating AST; every parser case carries the place of every file and the kernel checks filepath.Glob's answers for literal patterns against the model's resolution rule; non-trivial = >=2 tokens / parsed blocks / every AST, file or cycle case",
 		Gen:    c10Gen,
 		Decode: func(raw json.RawMessage) (interface{}, error) {
 			in := &c10In{}
